@@ -298,10 +298,11 @@ def check_from_utf8_unchecked(b, bb, t):
         if not okc:
             return False, whyc
         entry = True
-    elif src_l > b.argc and err_l > b.argc:
-        # `let mut remaining = src; let mut err = first_err;` over parameters with the same precondition
-        ps = _param_copied_into(b, src_l)
-        pe = _param_copied_into(b, err_l)
+    else:
+        # `let mut remaining = src; let mut err = first_err;` over parameters with the same precondition (either of the
+        # two may also be the parameter itself, declared `mut`)
+        ps = src_l if 1 <= src_l <= b.argc else _param_copied_into(b, src_l)
+        pe = err_l if 1 <= err_l <= b.argc else _param_copied_into(b, err_l)
         if ps is not None and pe is not None:
             okc, whyc = _callers_establish_utf8(b, ps, pe)
             if not okc:
@@ -432,7 +433,9 @@ def _utf8_valid_flow(b, src_l, err_l, vbb, ubb, entry=False, at_only=False, para
                 st = (False, set())
         return st
 
-    IN = {0: (entry, frozenset())}
+    init_res = frozenset({'@param'}) if (param_init and param_init[0] == src_l) else frozenset()
+    init_valid = entry or bool(param_init and param_init[0] == src_l and param_init[1] == err_l)
+    IN = {0: (init_valid, init_res)}
     work = [0]
     while work:
         bi = work.pop()
